@@ -92,6 +92,7 @@ pub fn run_case(
 ) -> Option<Ints> {
     ledger_reset();
     crate::types::SALT.store(0, std::sync::atomic::Ordering::Relaxed);
+    crate::types::CLONE_MERGE.store(false, std::sync::atomic::Ordering::Relaxed);
     alloc::tab_reset();
     let qmark = alloc::q_mark();
     let tracked = |f: &mut dyn FnMut()| {
@@ -124,6 +125,7 @@ pub fn run_case(
         writeln!(t.out, "X {}", meta).unwrap();
     }
     let mut snap = subj.snapshot();
+    let mut longest = snap.len();
     crate::subj::AUDIT_BAD.store(false, std::sync::atomic::Ordering::Relaxed);
     let _ = ledger_drain();
     let mut sample = String::new();
@@ -151,6 +153,7 @@ pub fn run_case(
             Ok(out) => {
                 let (dk, dv, dd, cb) = ledger_drain();
                 snap = subj.snapshot();
+                longest = longest.max(snap.len());
                 let mut cbs: Ints = vec![cb.len() as i128];
                 for (k, v) in cb {
                     cbs.push(k as i128);
@@ -198,6 +201,11 @@ pub fn run_case(
     // final drop of the cache: everything retained must be released exactly once
     beat_op(&[99]);
     let mut subj = Some(subj);
+    // how full the lists of this history ever were (a snapshot is a few header numbers and two numbers per entry,
+    // ghosts included): printed with the operation histogram, so that a slice that never fills shows
+    let pairs = longest / 2;
+    let bucket = [4usize, 16, 64, 256, 1024].iter().find(|b| pairs <= **b).map(|b| format!("fullest-state<={}-entries", b)).unwrap_or_else(|| "fullest-state>1024-entries".to_string());
+    t.count(&bucket);
     let final_snap = snap.clone();
     drop(snap);
     let r = tracked(&mut || drop(subj.take()));
